@@ -57,13 +57,35 @@ var (
 	cReuseTypes  = simrt.RegisterCounter("probe_reuse_types_exercised")
 	cStaleBefore = simrt.RegisterCounter("probe_worker_ran_after_buffer_reuse")
 	cScribbleOwn = simrt.RegisterCounter("fault_owner_overwrites_its_decoded_frame")
+	cOtherFrames = simrt.RegisterCounter("op_non_data_frames_received")
+	cSharedBytes = simrt.RegisterCounter("op_shared_input_decoded_by_two_workers")
 )
 
 const (
 	jobFrame = iota
 	jobShared
 	jobStop
+	jobOther       // join-accept / proprietary / join-request frame decoded from reused memory
+	jobSharedBytes // one read-only input buffer decoded by two workers
 )
+
+// otherJob is a non-data frame decoded from the receive buffer and from a
+// private copy.
+type otherJob struct {
+	phy, ref *lorawan.PHYPayload
+	wire     []byte
+	key      spec.Key
+	isJA     bool
+	gen      int64
+}
+
+// bytesJob is an immutable input that two workers decode concurrently.
+type bytesJob struct {
+	name string
+	mk   func() interface{}
+	up   bool
+	b    []byte
+}
 
 type job struct {
 	phy    *lorawan.PHYPayload // decoded from the shared buffer / arena
@@ -171,6 +193,14 @@ func receiver(wd *world, n int, sub uint64) {
 			break
 		}
 		simrt.Progress()
+		if wd.nWorkers > 1 && r.Intn(8) == 0 {
+			sendSharedBytes(wd, r)
+			continue
+		}
+		if r.Intn(7) == 0 {
+			recvOther(wd, r, single)
+			continue
+		}
 		si := r.Intn(nSess)
 		s := sessions[si]
 		fcnts[si]++
@@ -272,6 +302,120 @@ func receiver(wd *world, n int, sub uint64) {
 	}
 }
 
+// recvOther: a join-accept (still encrypted), a proprietary frame or a
+// join-request lands in the reusable receive buffer, is decoded there and
+// processed later by a worker.
+func recvOther(wd *world, r *sim.Rand, single []byte) {
+	var key spec.Key
+	r.Fill(key[:])
+	var wire []byte
+	isJA := false
+	switch r.Intn(3) {
+	case 0:
+		ja := &lorawan.JoinAcceptPayload{JoinNonce: lorawan.JoinNonce(r.Intn(1 << 24)), RXDelay: uint8(r.Intn(16)),
+			DLSettings: lorawan.DLSettings{RX2DataRate: uint8(r.Intn(16)), RX1DROffset: uint8(r.Intn(8))}}
+		r.Fill(ja.HomeNetID[:])
+		r.Fill(ja.DevAddr[:])
+		phy := lorawan.PHYPayload{MHDR: lorawan.MHDR{MType: lorawan.JoinAccept}, MACPayload: ja}
+		var eui lorawan.EUI64
+		if err := phy.SetDownlinkJoinMIC(lorawan.JoinRequestType, eui, 1, lorawan.AES128Key(key)); err != nil {
+			return
+		}
+		if err := phy.EncryptJoinAcceptPayload(lorawan.AES128Key(key)); err != nil {
+			return
+		}
+		wire, _ = phy.MarshalBinary()
+		isJA = true
+	case 1:
+		wire = append([]byte{0xe0}, r.Bytes(5+r.Intn(30))...) // proprietary
+	default:
+		wire = append([]byte{0x00}, r.Bytes(18+4)...) // join-request
+	}
+	if len(wire) == 0 {
+		return
+	}
+	target := single[:len(wire)]
+	genInc()
+	ownerWrite(target, wire)
+	j := &otherJob{phy: &lorawan.PHYPayload{}, ref: &lorawan.PHYPayload{}, wire: append([]byte(nil), wire...), key: key, isJA: isJA, gen: genGet()}
+	if err := j.phy.UnmarshalBinary(target); err != nil {
+		simrt.Report("iso.unmarshal.other", fmt.Sprintf("%x refused: %v", wire, err))
+		return
+	}
+	j.ref.UnmarshalBinary(append([]byte(nil), wire...))
+	simrt.Count(cOtherFrames)
+	wd.boxes[r.Intn(wd.nWorkers)].Send(jobOther, j)
+	if r.Intn(2) == 0 {
+		genInc()
+		ownerWriteFill(target, byte(r.Intn(256)))
+		simrt.Count(cScribble)
+	}
+	simrt.Seam(1)
+}
+
+func processOther(j *otherJob) {
+	simrt.Progress()
+	if genGet() != j.gen {
+		simrt.Count(cOverwrite)
+	}
+	bA, eA := j.phy.MarshalBinary()
+	bB, eB := j.ref.MarshalBinary()
+	if (eA == nil) != (eB == nil) || !bytes.Equal(bA, bB) {
+		simrt.Report("alias.decode:remarshal-other", fmt.Sprintf("a join-accept / proprietary / join-request frame decoded from a buffer the caller reused later re-marshals to %x, from a private copy %x", bA, bB))
+		return
+	}
+	if !bytes.Equal(bB, j.wire) {
+		simrt.Report("iso.remarshal.other", fmt.Sprintf("frame %x re-marshals to %x", j.wire, bB))
+	}
+	if j.isJA {
+		simrt.Seam(2)
+		eA = j.phy.DecryptJoinAcceptPayload(lorawan.AES128Key(j.key))
+		eB = j.ref.DecryptJoinAcceptPayload(lorawan.AES128Key(j.key))
+		if (eA == nil) != (eB == nil) || sim.DeepSig(j.phy) != sim.DeepSig(j.ref) {
+			simrt.Report("alias.decode:join-accept", fmt.Sprintf("join-accept decoded from a reused buffer decrypts to %s (%v), from a private copy %s (%v)", sim.DeepSig(j.phy), eA, sim.DeepSig(j.ref), eB))
+			return
+		}
+		var eui lorawan.EUI64
+		if ok, err := j.ref.ValidateDownlinkJoinMIC(lorawan.JoinRequestType, eui, 1, lorawan.AES128Key(j.key)); !ok || err != nil {
+			simrt.Report("iso.ja.mic-after-decode", fmt.Sprintf("join-accept MIC invalid after decode: %v %v", ok, err))
+		}
+	}
+}
+
+// sendSharedBytes hands ONE immutable input buffer to two workers, which
+// decode it into their own fresh values at the same time: a decoder that
+// writes to its input (even transiently) races with the other decoder.
+func sendSharedBytes(wd *world, r *sim.Rand) {
+	var bj *bytesJob
+	if r.Intn(2) == 0 {
+		t := rootTypes[r.Intn(len(rootTypes))]
+		bj = &bytesJob{name: t.name, mk: t.mk, up: r.Intn(2) == 0, b: t.gen(r, 2)}
+	} else {
+		at := appTypes[r.Intn(len(appTypes))]
+		p := appPkgs[at.pkg]
+		b := r.Bytes(48)
+		switch at.kind {
+		case 0:
+			cid, up := at.cid, at.up
+			bj = &bytesJob{name: p.name, mk: func() interface{} { v, _ := p.payload(up, cid); return v }, up: at.up, b: b}
+		default:
+			b[0] = at.cid
+			bj = &bytesJob{name: p.name, mk: p.newCmd, up: at.up, b: b}
+		}
+	}
+	a := r.Intn(wd.nWorkers)
+	b := (a + 1 + r.Intn(wd.nWorkers-1)) % wd.nWorkers
+	wd.boxes[a].Send(jobSharedBytes, bj)
+	wd.boxes[b].Send(jobSharedBytes, bj)
+	simrt.Count(cSharedBytes)
+}
+
+func processSharedBytes(bj *bytesJob) {
+	simrt.Progress()
+	v := bj.mk()
+	sim.Guard("panic", func() { callUnmarshal(v, bj.up, bj.b) })
+}
+
 // ownerWrite / ownerWriteFill are the receive loop writing into memory it
 // owns. The driver's race parser knows these names: a race against them means
 // the library kept (or touched) memory that belongs to its caller.
@@ -343,6 +487,10 @@ func worker(wd *world, id int, sub uint64, extra int) {
 			processFrame(m.Data.(*job), r)
 		case jobShared:
 			processShared(m.Data.(*job))
+		case jobOther:
+			processOther(m.Data.(*otherJob))
+		case jobSharedBytes:
+			processSharedBytes(m.Data.(*bytesJob))
 		}
 		if r.Intn(2) == 0 {
 			localOp(wd, id, r, bw)
